@@ -1085,13 +1085,39 @@ def _truncation_sweeps(out, spec, st):
         line = bytes([200]) + bytes(range(160))
         full = head + bytes([192]) + line * 192
 
-        def run(raw):
-            o = io.BytesIO()
-            try:
-                C.convert(io.BytesIO(raw), o)
-                return "ok", o.getvalue()
-            except BaseException as e:  # noqa: BLE001
-                return type(e).__name__, o.getvalue()
+        def run(raw, limit_s=8):
+            """the real decoder in a forked child under a time limit (a decoder that never returns must not hang the check)"""
+            import os
+            import signal
+            import time as _time
+
+            rfd, wfd = os.pipe()
+            pid = os.fork()
+            if pid == 0:
+                os.close(rfd)
+                o = io.BytesIO()
+                try:
+                    C.convert(io.BytesIO(raw), o)
+                    stt = "ok"
+                except BaseException as e:  # noqa: BLE001
+                    stt = type(e).__name__
+                os.write(wfd, f"{stt} {len(o.getvalue())}".encode())
+                os._exit(0)
+            os.close(wfd)
+            t0 = _time.time()
+            while _time.time() - t0 < limit_s:
+                done, _ = os.waitpid(pid, os.WNOHANG)
+                if done:
+                    data = os.read(rfd, 100).decode()
+                    os.close(rfd)
+                    stt, n = data.split(" ")
+                    return stt, b"x" * int(n)
+                _time.sleep(0.02)
+            os.kill(pid, signal.SIGKILL)
+            os.waitpid(pid, 0)
+            os.close(rfd)
+            out["sigs"].append(("nontermination:cm3toppm", f"cm3toppm does not return within {limit_s} s on an input of {len(raw)} bytes (concrete sweep)", {"input_hex": raw[:60].hex(), "length": len(raw)}))
+            return "timeout", b""
 
         expect = 320 * 192 * 3 + len("P6\n320 192\n255\n")
         stt, o = run(full)
